@@ -3,7 +3,10 @@ use crate::Scope;
 use crate::css::{CssString, Value};
 use crate::value::ListSeparator;
 use std::cmp::min;
+#[cfg(not(kaj_rsass_verif))]
 use std::sync::{LazyLock, Mutex};
+#[cfg(kaj_rsass_verif)]
+use crate::verif::sync::{LazyLock, Mutex};
 
 pub fn create_module() -> Scope {
     let mut f = Scope::builtin_module("sass:string");
